@@ -28,7 +28,7 @@ class ScenarioManagerSd(ScenarioManager):
     This class reads and writes pure sd scenarios and starts the file monitors for each scenario's model
     """
 
-    def __init__(self, base_points={}, base_constants={}, scenarios={}, name="", model=None, source="", filenames=[],
+    def __init__(self, base_points=None, base_constants=None, scenarios=None, name="", model=None, source="", filenames=None,
                  model_file=""):
         """
 
@@ -41,15 +41,16 @@ class ScenarioManagerSd(ScenarioManager):
         """
         super().__init__()
 
-        self.scenarios = scenarios
+        # every manager owns its containers: mutable default arguments would be one object shared by all managers
+        self.scenarios = scenarios if scenarios is not None else {}
         self.name = name
         self.model = model
         self.model_file = model_file
         self.source = source
 
-        self.base_constants = base_constants
-        self.base_points = base_points
-        self.filenames = filenames
+        self.base_constants = base_constants if base_constants is not None else {}
+        self.base_points = base_points if base_points is not None else {}
+        self.filenames = list(filenames) if filenames is not None else []
 
         self.type = "sd"
 
